@@ -40,6 +40,11 @@ class HarnessError(Exception):
     """set-up / oracle problem — not a property violation"""
 
 
+class Inconclusive(Exception):
+    """the code under test no longer has the structure this lemma is stated about (e.g. a refactoring): the obligation is
+    reported INCONCLUSIVE (never a verdict, never an error); the end-to-end harnesses of the same property still decide"""
+
+
 def tracing() -> bool:
     try:
         return bool(is_tracing())
